@@ -602,10 +602,14 @@ fn run_case<B: Backend>(bk: &str, is_str: bool, ops_src: &mut dyn FnMut(&Pool<B>
     drop(pool);
 }
 
-fn drive<B: Backend>(bk: &str, tier: &str, seed: u64, sum: &mut Summary, w: &mut CaseWriter, filter: Option<&str>) {
+fn drive<B: Backend>(bk: &str, tier: &str, seed: u64, sum: &mut Summary, w: &mut CaseWriter, filter: Option<&str>, focus: &str) {
     let thorough = tier == "thorough";
+    let seed = seed.wrapping_add(match focus { "sharing" => 101, "heap" => 202, "repr" => 303, "ceiling" => 404, "utf8" => 505, _ => 0 });
+    if focus == "utf8" { utf8_stream::<B>(bk, thorough, sum, w); }
+    if focus == "repr" { repr_sweep::<B>(bk, thorough, sum, w); }
     for is_str in [false, true] {
         if let Some(f) = filter { if (f == "str") != is_str && (f == "str" || f == "byt") { continue; } }
+        if focus == "utf8" && !is_str { continue; }
         // corpus first
         for (ci, seq) in corpus(is_str).into_iter().enumerate() {
             let ends = seq.clone();
@@ -621,11 +625,11 @@ fn drive<B: Backend>(bk: &str, tier: &str, seed: u64, sum: &mut Summary, w: &mut
             run_case::<B>(bk, is_str, &mut src, sum, w, &format!("corpus#{}", ci));
         }
         // structured random sequences
-        let n_cases = if thorough { 400 } else { 60 };
+        let n_cases = if thorough { 400 } else if focus == "content" { 60 } else { 30 };
         for c in 0..n_cases {
             let mut rng = Rng::new(seed.wrapping_mul(1000003).wrapping_add(c as u64 * 7919 + if is_str { 1 } else { 0 } + bk.len() as u64 * 31));
             let n_ops = 15 + rng.below(if thorough { 60 } else { 35 });
-            let force_ok = bk != "BUnique" && rng.chance(1, 3);
+            let force_ok = bk != "BUnique" && (focus == "ceiling" || rng.chance(1, 3));
             let mut phase2 = 0usize;
             let mut src = |p: &Pool<B>, k: usize| -> Option<Op> {
                 if k < n_ops { return Some(gen_op(&mut rng, p, force_ok)); }
@@ -640,15 +644,64 @@ fn drive<B: Backend>(bk: &str, tier: &str, seed: u64, sum: &mut Summary, w: &mut
     }
 }
 
+/// C06 malformed stream: from_utf8 on every string of 1-3 bytes over the class representatives of Unicode table 3-7
+/// (plus well-formed carriers with one ill-formed class embedded at every offset), then ops on the accepted values.
+fn utf8_stream<B: Backend>(bk: &str, thorough: bool, sum: &mut Summary, w: &mut CaseWriter) {
+    let reps: [u8; 14] = [0x00, 0x7F, 0x80, 0xBF, 0xC0, 0xC2, 0xDF, 0xE0, 0xED, 0xEF, 0xF0, 0xF4, 0xF5, 0xFF];
+    let mut inputs: Vec<Vec<u8>> = vec![vec![]];
+    for a in reps { inputs.push(vec![a]); for b in reps { inputs.push(vec![a, b]); if thorough || (a >= 0xC0 && a % 3 == 0) { for c in reps { inputs.push(vec![a, b, c]); } } } }
+    for bad in [&[0xC0u8, 0x80][..], &[0xED, 0xA0, 0x80], &[0xF4, 0x90, 0x80, 0x80], &[0xE2, 0x82], &[0xF0, 0x9F, 0xA6], &[0x80]] {
+        let carrier = "a\u{e9}\u{20ac}\u{1F980}z".as_bytes();
+        for off in 0..=carrier.len() { let mut v = carrier[..off].to_vec(); v.extend_from_slice(bad); v.extend_from_slice(&carrier[off..]); inputs.push(v); }
+    }
+    for chunk in inputs.chunks(40) {
+        let ops: Vec<Op> = chunk.iter().map(|x| Op::FromUtf8(x.clone())).collect();
+        let mut k2 = 0usize;
+        let mut src = |p: &Pool<B>, k: usize| -> Option<Op> {
+            if k < ops.len() { return Some(ops[k].clone()); }
+            let live: Vec<usize> = (0..p.hs.len()).filter(|&i| p.hs[i].is_some()).collect();
+            if live.is_empty() { return None; }
+            k2 += 1;
+            // pop each accepted value once, then drop it
+            if k2 % 2 == 1 { Some(Op::Pop(live[0])) } else { Some(Op::Drop(live[0])) }
+        };
+        run_case::<B>(bk, true, &mut src, sum, w, "utf8-stream");
+    }
+}
+
+/// C07 sweep: every constructor x every length 0..=64 (and a few large ones), then clone / long slice / short slice / into_vec.
+fn repr_sweep<B: Backend>(bk: &str, thorough: bool, sum: &mut Summary, w: &mut CaseWriter) {
+    let mut lens: Vec<usize> = (0..=64).collect();
+    if thorough { lens.extend_from_slice(&[255, 256, 4096]); }
+    for is_str in [false, true] {
+        for &n in &lens {
+            let x: Vec<u8> = (0..n).map(|i| b'a' + (i % 26) as u8).collect();
+            let mut ops = vec![Op::FromSlice(x.clone()), Op::FromVec(x.clone(), 0), Op::FromVec(x.clone(), 9), Op::Borrowed(x.clone()), Op::WithCapacity(n), Op::PushSlice(4, x.clone())];
+            if !is_str { ops.push(Op::TryInline(x.clone())); } else { ops.push(Op::New); }
+            for h in 0..5 { ops.push(Op::Clone(h)); }
+            ops.push(Op::TrySlice(0, Bound::Included(1), Bound::Unbounded));
+            ops.push(Op::TrySlice(2, Bound::Included(0), Bound::Excluded(n.min(5))));
+            ops.push(Op::TrySlice(3, Bound::Included(n / 2), Bound::Unbounded));
+            ops.push(Op::Clear(7)); ops.push(Op::IntoVec(1)); ops.push(Op::Drop(8)); ops.push(Op::IntoVec(1)); ops.push(Op::ShrinkToFit(2)); ops.push(Op::Truncate(4, 3));
+            let mut src = |p: &Pool<B>, k: usize| -> Option<Op> {
+                if k < ops.len() { return Some(ops[k].clone()); }
+                (0..p.hs.len()).find(|&i| p.hs[i].is_some()).map(Op::Drop)
+            };
+            run_case::<B>(bk, is_str, &mut src, sum, w, &format!("repr-sweep len={}", n));
+        }
+    }
+}
+
 pub fn run(out_dir: &Path, tier: &str, seed: u64, rest: &[String]) {
     silence_panics();
     let mut sum = Summary::default();
     let header = "From Hip Require Import Base Range Utf8 StrRange Bytes CasesBytes.\n";
     let mut w = CaseWriter::new(out_dir, &format!("bytes_{}", profile()), header, "Eval vm_compute in (bad_cases cases 0).\n", if tier == "thorough" { 40 } else { 12 });
     let filter = rest.first().map(|s| s.as_str());
-    drive::<Arc>("BArc", tier, seed, &mut sum, &mut w, filter);
-    drive::<Rc>("BRc", tier, seed, &mut sum, &mut w, filter);
-    drive::<Unique>("BUnique", tier, seed, &mut sum, &mut w, filter);
+    let focus = rest.iter().find_map(|a| a.strip_prefix("focus=")).unwrap_or("content").to_string();
+    drive::<Arc>("BArc", tier, seed, &mut sum, &mut w, filter, &focus);
+    drive::<Rc>("BRc", tier, seed, &mut sum, &mut w, filter, &focus);
+    drive::<Unique>("BUnique", tier, seed, &mut sum, &mut w, filter, &focus);
     w.flush();
     sum.files = w.files.clone();
     sum.notes.push(format!("profile={} allocator_errors={}", profile(), alloc::error_detail()));
